@@ -137,3 +137,14 @@ PLANS["C10"] = dict(
     clauses={"same vertices and edges": "proved (ensures.edges_unchanged)", "every edge exactly one label size-members-id; edges sharing a label = all pairs of the member list": "proved (all_edges_claimed, every_edge_labelled, label_is_size_members_id, cover_disjoint)",
              "size limit respected; ids unique": "proved (cover_within_limit; id = index in cover)", "greedy-maximal": "proved (ensures.greedy_maximal)"},
     assumptions=["nx.enumerate_all_cliques enumerates every clique of the graph (assumed; used to read the greedy clause over 'every clique')"])
+
+PLANS["C18"] = dict(
+    level="other", bounded="c18",
+    modules=[dict(name="percolate")],
+    technique="deductive verification of the real bond_percolate against a functional contract with ghost draws (one uniform draw per edge in G.edges() order; kept_j iff draw_j < phi; result = largest component of the kept subgraph / order), VCs from the AST in z3/cvc5; exact distribution over all scripted draw sequences on small graphs as labelled stand-in",
+    level_text="Proved for every graph, phi and draw outcome: the input is untouched (copy contract), the result is lcc(V, {e_j : draw_j < phi}) / N, hence a multiple of 1/N in [1/N, 1], exactly 1/N at phi = 0 (for every draw including 0.0) and the full largest-component fraction at phi = 1. 'Independently with probability phi' / Binomial on a star is then the assumed contract of random.random (i.i.d. uniform draws), confirmed exactly on a grid by the stand-in; hence `other`.",
+    level_note="Trusted: vf VC generator, z3/cvc5; assumed: g.copy() is an independent copy, the comprehension draws one random.random() per edge in G.edges() order, remove_edges_from removes exactly the listed edges, sorted(connected_components, key=len, reverse=True)[0] is a largest component, axioms about lcc_size (range, none kept => 1, extensionality); random.random() i.i.d. uniform on [0,1).",
+    explanation="PROVED: ensures input_untouched, fraction_of_largest_component_of_kept_edges, range, phi_zero. ASSUMED: i.i.d. uniform draws. BOUNDED: exact result distribution over all 4^M draw sequences from the grid {0,1/4,1/2,3/4} equals the definition, for all atlas graphs with <= 5 edges (incl. isolated vertices, attributes), phi grid; deep comparison of the input before/after.",
+    clauses={"input untouched": "proved (copy contract) + bounded deep comparison", "exact fraction at phi=1, 1/N at phi=0, multiple of 1/N in [1/N,1]": "proved (ensures.range, phi_zero, law)",
+             "each edge kept independently with probability phi; Binomial on a star": "proved functional law (kept iff draw < phi) + assumed i.i.d. uniform draws; exact on a grid (bounded)"},
+    not_decided=["the distribution of random.random() (assumed library contract)"])
